@@ -93,6 +93,24 @@ CATALOGUE = {
 }
 
 
+def _late(module, specs):
+    """Register constraints after construction through the public register_constraint (ConstantMean is the module
+    whose constraint is optional: built without one, given one later)."""
+    for path, raw, constraint in specs:
+        owner = module.get_submodule(path) if path else module
+        owner.register_constraint(raw, constraint)
+    return module
+
+
+CATALOGUE.update(
+    {
+        "ConstantMean_late_constraint": lambda: _late(Mn.ConstantMean(constant_prior=P.NormalPrior(0.0, 0.5)), [("", "raw_constant", C.Interval(-2.0, 2.0))]),
+        "ConstantMean_late_constraint_batch": lambda: _late(Mn.ConstantMean(batch_shape=torch.Size([2])), [("", "raw_constant", C.GreaterThan(-1.0))]),
+        "RBFKernel_late_constraint": lambda: _late(K.ScaleKernel(K.RBFKernel(lengthscale_prior=_gamma())), [("base_kernel", "raw_lengthscale", C.Interval(0.05, 3.0)), ("", "raw_outputscale", C.LessThan(5.0))]),
+    }
+)
+
+
 def _named(module, specs):
     """Register priors through the public name-based API: register_prior(name, prior, "<param>")."""
     for path, pub, prior in specs:
